@@ -186,14 +186,14 @@ def run_property(prop, tier, seed):
     t0 = time.time()
     spec = PROPS[prop]
     units = spec["units"]
-    canary = (tier == "thorough") or spec.get("canary_quick", True)
+    canary = ((tier == "thorough") or spec.get("canary_quick", True)) and os.environ.get("VERIF_NO_CANARY") != "1"      # tools/par_matrix.sh skips the vacuity canaries
     kani_results = []
     with ThreadPoolExecutor(max_workers=min(16, max(1, len(units))) + 1) as ex:
         kfut = None
         if spec.get("kani") and (tier == "thorough" or spec.get("kani_quick") or os.environ.get("VERIF_KANI") == "1"):
             from . import kani
             kfut = ex.submit(kani.run_harnesses, prop, spec["kani"], tier)      # concurrently with the Verus units
-        results = list(ex.map(lambda u: runner.run_unit(u, canary=canary), units))
+        results = list(ex.map(lambda u: runner.run_unit(u, canary=canary, outdir=os.path.join(OUT, "units-" + prop)), units))
         if kfut is not None:
             kani_results = kfut.result()
     notes = []
